@@ -20,12 +20,9 @@ Section SeqProofs.
   Definition key_respected :=
     forall s g q1 q2, D q1 = true -> D q2 = true -> key q1 = key q2 -> is_exist q1 = is_exist q2 ->
                       snd (inner_step s g (Read q1)) = snd (inner_step s g (Read q2)).
-  Definition err_empty :=
-    forall s g q l e, D q = true -> snd (inner_step s g (Read q)) = AList l (Some e) -> l = [].
 
   Hypothesis Hpure : reads_pure.
   Hypothesis Hkey : key_respected.
-  Hypothesis Herr : err_empty.
 
   Notation handle := (@handle gid elem K).
   Notation probe := (@probe gid query elem err K is_exist key K_eqb).
@@ -77,22 +74,20 @@ Section SeqProofs.
       + inversion F; subst b'. apply K_eqb_eq in KE.
         unfold inner_read. rewrite (Hkey s (h_gid h) q' q Dq' Dq KE); [exact A|congruence].
       + apply He; assumption.
-    - destruct (inner_read s (h_gid h) q) as [l e|b e|e|] eqn:A; try (split; assumption).
+    - destruct (inner_read s (h_gid h) q) as [l [e|]|b e|e|] eqn:A; try (split; assumption).
       split; cbn [h_list h_exist h_gid store_list]; [|exact He].
       intros q' x l' Dq' Ex' F. cbn [Memo.afind] in F.
       destruct (K_eqb (key q') (key q)) eqn:KE.
       + inversion F; subst l. apply K_eqb_eq in KE.
         unfold inner_read. rewrite (Hkey s (h_gid h) q' q Dq' Dq KE); [|congruence].
-        fold (inner_read s (h_gid h) q). rewrite A.
-        destruct e as [e|]; [|reflexivity].
-        unfold inner_read in A. apply (Herr s (h_gid h) q _ e Dq) in A. discriminate.
+        fold (inner_read s (h_gid h) q). exact A.
       + apply Hl; assumption.
   Qed.
 
   Lemma gid_store_after : forall h q a, h_gid (store_after h q a) = h_gid h.
   Proof.
     intros h q a. unfold Memo.store_after.
-    destruct (is_exist q); destruct a as [l e|b [e|]|e|]; reflexivity.
+    destruct (is_exist q); destruct a as [l [e|]|b [e|]|e|]; reflexivity.
   Qed.
 
   (* one request on a coherent handle: same answer and same inner state as the wrapped store, handle stays coherent *)
